@@ -17,6 +17,14 @@ type SrcModel struct {
 	FoldMask int       `json:"foldMask"`
 	BD       []DepAST  `json:"bd"` // Build-Depends, Build-Depends-Arch, Build-Depends-Indep (len 3)
 	Styles   [3]string `json:"styles"`
+	Version  string    `json:"version,omitempty"` // "" = 1.0-1
+}
+
+func (s SrcModel) version() string {
+	if s.Version == "" {
+		return "1.0-1"
+	}
+	return s.Version
 }
 
 type OrderCase struct {
@@ -52,7 +60,7 @@ func renderSrcDsc(s SrcModel) string {
 	b.scalar("Source", s.Name)
 	b.commaList("Binary", s.Bins, s.FoldMask)
 	b.scalar("Architecture", "any all")
-	b.scalar("Version", "1.0-1")
+	b.scalar("Version", s.version())
 	b.scalar("Maintainer", "A B <a@b.c>")
 	text := b.sb.String()
 	for i, f := range bdFields {
@@ -60,10 +68,10 @@ func renderSrcDsc(s SrcModel) string {
 			text += renderDepStyled(f, s.BD[i], s.Styles[i])
 		}
 	}
-	return text + "Files:\n d41d8cd98f00b204e9800998ecf8427e 0 " + s.Name + "_1.0-1.dsc\n"
+	return text + "Files:\n d41d8cd98f00b204e9800998ecf8427e 0 " + s.Name + "_" + s.version() + ".dsc\n"
 }
 
-var buildArches = []string{"amd64", "i386", "arm64"}
+var buildArches = []string{"amd64", "i386", "arm64", "hurd-i386", "kfreebsd-amd64"}
 
 // genOrderCase builds a build-dependency graph.
 func genOrderCase(t *rapid.T) OrderCase {
@@ -99,6 +107,26 @@ func genOrderCase(t *rapid.T) OrderCase {
 			s.Styles[k] = rapid.SampledFrom([]string{"single", "single", "folded", "wrapsort"}).Draw(t, "style")
 		}
 		c.Sources = append(c.Sources, s)
+	}
+	// a set of sources is not always tidy: a binary taken over by another source (both still list
+	// it), or two versions of one source side by side
+	if n > 1 && rapid.IntRange(0, 4).Draw(t, "sharedBinary") == 0 {
+		u1 := rapid.IntRange(0, n-2).Draw(t, "sb1")
+		u2 := rapid.IntRange(u1+1, n-1).Draw(t, "sb2")
+		bin := rapid.SampledFrom(c.Sources[u1].Bins).Draw(t, "sbBin")
+		at := rapid.IntRange(0, len(c.Sources[u2].Bins)).Draw(t, "sbAt")
+		bins := append([]string{}, c.Sources[u2].Bins[:at]...)
+		bins = append(bins, bin)
+		c.Sources[u2].Bins = append(bins, c.Sources[u2].Bins[at:]...)
+	}
+	if n > 1 && rapid.IntRange(0, 5).Draw(t, "sameSource") == 0 {
+		i := rapid.IntRange(0, n-2).Draw(t, "ss1")
+		j := rapid.IntRange(i+1, n-1).Draw(t, "ss2")
+		c.Sources[j].Name = c.Sources[i].Name
+		c.Sources[j].Version = "2.0-1"
+		if rapid.Bool().Draw(t, "ssBins") {
+			c.Sources[j].Bins = append([]string{}, c.Sources[i].Bins...)
+		}
 	}
 	cyclic := rapid.IntRange(0, 2).Draw(t, "cyclic") == 0
 	ne := rapid.IntRange(0, 2*n).Draw(t, "ne")
@@ -181,12 +209,14 @@ func genOrderCase(t *rapid.T) OrderCase {
 	return c
 }
 
+func srvPath(c OrderCase, idx int) string { return "/srv/" + itoa(idx) + "_" + c.Sources[idx].Name + ".dsc" }
+
 func modelEdges(c OrderCase) (edges [][2]int, viaLaterBin, viaAlt bool) {
-	owner := map[string]int{}
+	owner := map[string][]int{} // every source that builds the binary
 	first := map[string]bool{}
 	for i, s := range c.Sources {
 		for j, b := range s.Bins {
-			owner[b] = i
+			owner[b] = append(owner[b], i)
 			first[b] = j == 0
 		}
 	}
@@ -200,7 +230,7 @@ func modelEdges(c OrderCase) (edges [][2]int, viaLaterBin, viaAlt bool) {
 						continue
 					}
 					if altAdmits(a, cm) {
-						if u, ok := owner[a.Name]; ok {
+						for _, u := range owner[a.Name] {
 							edges = append(edges, [2]int{u, v})
 							if !first[a.Name] {
 								viaLaterBin = true
@@ -255,9 +285,22 @@ func hasCycle(n int, edges [][2]int) (cycle bool, onlySelf bool) {
 
 var specC19 = Register(&Spec[OrderCase]{
 	Prop: "C19", Name: "order",
-	Rule: "random build-dependency graphs over 1..12 sources (named src<i>, or composed of short syllables so that names are prefixes/suffixes/concatenations of each other) with 1..4 uniquely named binaries each; edges 'v build-depends on binary b of u' chosen acyclic (forward edges over a hidden order), with a planted cycle of length 2..4 (1/4 of cases) or a self-dependency; each edge goes to Build-Depends, -Arch or -Indep, as a plain relation or inside alternatives/arch lists so that the in-graph binary is, or deliberately is not, the first alternative admitted for the build architecture, with substvars and out-of-graph packages mixed in; 3/4 of edges go through a binary that is NOT the first of its source; every source is rendered as real .dsc text (Binary 'a, b, c' single-line or folded; dependency fields single-line, folded or wrap-and-sort), parsed with control.ParseDsc and handed over in a generated permutation. Oracle: model edge set E (C06 selection oracle); E acyclic => no error, result is a permutation of the input and pos(u) < pos(v) for every edge; a cycle through >= 2 sources => error; only self-dependencies => either; three runs agree. Non-trivial: >= 1 edge through a non-first binary or decided by an alternative; distinct by case.",
+	Rule: "random build-dependency graphs over 1..12 sources (named src<i>, or composed of short syllables so that names are prefixes/suffixes/concatenations of each other) with 1..4 binaries each - uniquely named, except that in 1/5 of the cases one binary is also listed by a second source and in 1/6 two of the sources carry the same Source name (two versions side by side, with the same or different binaries); edges 'v build-depends on binary b of u' chosen acyclic (forward edges over a hidden order), with a planted cycle of length 2..4 (1/4 of cases) or a self-dependency; each edge goes to Build-Depends, -Arch or -Indep, as a plain relation or inside alternatives/arch lists so that the in-graph binary is, or deliberately is not, the first alternative admitted for the build architecture, with substvars and out-of-graph packages mixed in; 3/4 of edges go through a binary that is NOT the first of its source; every source is rendered as real .dsc text (Binary 'a, b, c' single-line or folded; dependency fields single-line, folded or wrap-and-sort), parsed with control.ParseDsc and handed over in a generated permutation. Oracle: model edge set E (C06 selection oracle; a build-dependency on a binary orders the source after EVERY source that builds it); E acyclic => no error, result is a permutation of the input and pos(u) < pos(v) for every edge; a cycle through >= 2 sources => error; only self-dependencies => either; three runs agree. Non-trivial: >= 1 edge through a non-first binary or decided by an alternative; distinct by case.",
 	Check: func(c OrderCase, r *Recorder) error {
 		n := len(c.Sources)
+		cm, _ := archModel(c.Arch)
+		for _, s := range c.Sources {
+			for _, dep := range s.BD {
+				for _, rel := range dep.Rels {
+					for _, a := range rel.Alts {
+						if altUndecided(a, cm) {
+							r.Case(jsonKey(c), false, "skipped-default-abi-undecided")
+							return nil
+						}
+					}
+				}
+			}
+		}
 		edges, later, viaAlt := modelEdges(c)
 		cyc, onlySelf := hasCycle(n, edges)
 		cl := []string{}
@@ -274,6 +317,29 @@ var specC19 = Register(&Spec[OrderCase]{
 		} else {
 			cl = append(cl, "verdict:acyclic")
 		}
+		binOwners, srcSeen := map[string]map[int]bool{}, map[string]bool{}
+		sharedBin, sameSrc := false, false
+		for i, s := range c.Sources {
+			if srcSeen[s.Name] {
+				sameSrc = true
+			}
+			srcSeen[s.Name] = true
+			for _, b := range s.Bins {
+				if binOwners[b] == nil {
+					binOwners[b] = map[int]bool{}
+				}
+				binOwners[b][i] = true
+				if len(binOwners[b]) > 1 {
+					sharedBin = true
+				}
+			}
+		}
+		if sharedBin {
+			cl = append(cl, "binary-built-by-two-sources")
+		}
+		if sameSrc {
+			cl = append(cl, "same-source-name-twice")
+		}
 		nt := len(edges) > 0 && (later || viaAlt)
 		r.Case(jsonKey(c), nt, cl...)
 		if nt {
@@ -285,7 +351,7 @@ var specC19 = Register(&Spec[OrderCase]{
 				return nil
 			}
 			text := renderSrcDsc(c.Sources[idx])
-			d, err := control.ParseDsc(bufio.NewReader(strings.NewReader(text)), "/srv/"+c.Sources[idx].Name+".dsc")
+			d, err := control.ParseDsc(bufio.NewReader(strings.NewReader(text)), srvPath(c, idx))
 			if err != nil {
 				return errf("ParseDsc rejected %q: %v", text, err)
 			}
@@ -300,9 +366,9 @@ var specC19 = Register(&Spec[OrderCase]{
 		for run := 0; run < 3; run++ {
 			in := append([]control.DSC{}, dscs...)
 			out, err := control.OrderDSCForBuild(in, *arch)
-			names := []string{}
+			names := []string{} // <index>_<source>: the index tells two sources of one name apart
 			for _, d := range out {
-				names = append(names, d.Source)
+				names = append(names, strings.TrimSuffix(strings.TrimPrefix(d.Filename, "/srv/"), ".dsc"))
 			}
 			if run == 0 {
 				firstOrder, firstErr = names, err != nil
@@ -332,22 +398,23 @@ var specC19 = Register(&Spec[OrderCase]{
 				}
 				pos[nm] = i
 			}
-			for _, s := range c.Sources {
-				if _, ok := pos[s.Name]; !ok {
-					return errf("source %s missing from the result %v", s.Name, names)
+			tag := func(i int) string { return strings.TrimSuffix(strings.TrimPrefix(srvPath(c, i), "/srv/"), ".dsc") }
+			for i := range c.Sources {
+				if _, ok := pos[tag(i)]; !ok {
+					return errf("source %s missing from the result %v", tag(i), names)
 				}
 			}
 			for _, e := range edges {
 				if e[0] == e[1] {
 					continue
 				}
-				u, v := c.Sources[e[0]].Name, c.Sources[e[1]].Name
+				u, v := tag(e[0]), tag(e[1])
 				if pos[u] >= pos[v] {
 					return errf("%s build-depends (on %s, first admitted alternative) on a binary of %s, but the order %v puts %s first", v, c.Arch, u, names, v)
 				}
 			}
 			for i, d := range out {
-				if len(d.Binaries) == 0 || d.Filename != "/srv/"+names[i]+".dsc" {
+				if len(d.Binaries) == 0 || !strings.HasSuffix(names[i], "_"+d.Source) {
 					return errf("result entry %d (%s) is not the DSC that was passed in (Filename %q)", i, names[i], d.Filename)
 				}
 			}
